@@ -25,8 +25,8 @@ LEVEL = "exploration"
 RULE = (
     "Hypothesis-generated statement programs (text, output, if/elif/else, for with else/filter/recursive/tuple targets, "
     "break/continue, set, tuple set, block set, namespace create/assign, with, macro with defaults, call blocks, filter blocks) "
-    "over a shared pool of 6 variable, 4 macro and 2 namespace names, depth<=4 / <=25 statements (quick), depth<=6 / <=60 "
-    "(thorough); each rendered on 3 data dicts in 4 environments against the reference interpreter, and re-rendered after a "
+    "over a shared pool of 6 variable, 4 macro and 2 namespace names; half of the programs depth<=4 / <=25 statements, the "
+    "other half depth<=5 / <=40 (quick) or depth<=6 / <=60 (thorough); each rendered on 3 data dicts in 4 environments against the reference interpreter, and re-rendered after a "
     "random bijective renaming into ASCII / Python-keyword / generated-code-like / dunder / NFKC-stable Unicode identifiers; "
     "plus enumerated two-identifier programs x ordered identifier pairs (non-aliasing). Non-trivial = during reference "
     "execution a name assigned in an ended child scope is read outside (leak_probe), a name is read before its scope's own "
@@ -260,8 +260,8 @@ def run_shard(spec, ctx):
     core.hyp_shard(case_strategy(4, 25), check_case, ctx, small, rec=rec, tag="small")
     if rec.violations:
         return rec
-    d, k = ctx.pick((4, 25), (6, 60))
-    core.hyp_shard(case_strategy(d, k) if not ctx.quick else case_strategy(5, 40), check_case, ctx, n - small, rec=rec, tag="large")
+    d, k = ctx.pick((5, 40), (6, 60))
+    core.hyp_shard(case_strategy(d, k), check_case, ctx, n - small, rec=rec, tag="large")
     return rec
 
 
